@@ -84,3 +84,19 @@ package topics
 //@   ensures[prefix] forall(0, old(len(*msgs)), func(i int) bool { return (*msgs)[i] == old((*msgs)[i]) })
 //@   ensures[arrays] fresh(arr(*msgs)) || arr(*msgs) == arr(old(*msgs))
 //@   modifies *msgs, capelems(old(*msgs))
+
+// ---------------------------------------------------------------- topic level scanner (C06)
+// k = index of the first '/' in topic (len(topic) if none). The level is topic[:k] and the rest topic[k+1:];
+// '#' and '+' are only accepted alone in their level and '#' only in the last level; a leading '$' is refused.
+// KNOWN DEVIATION (pinned by TestNextTopicLevelSuccess): an empty first level ("/a") is returned as "+".
+//@ func nextTopicLevel
+//@   results level, rem, err
+//@   loop 1 invariant 0 <= rangeindex+1 && rangeindex < len(topic) && forall(0, rangeindex+1, func(j int) bool { return topic[j] != '/' })
+//@   loop 1 invariant[state] (s == stateMWC) == (rangeindex >= 0 && topic[0] == '#' && rangeindex == 0) && (s == stateSWC) == (rangeindex == 0 && topic[0] == '+')
+//@   loop 1 invariant[nowild] rangeindex >= 1 ==> !(topic[0] == '#' || topic[0] == '+') && forall(1, rangeindex+1, func(j int) bool { return topic[j] != '#' && topic[j] != '+' })
+//@   loop 1 invariant[nodollar] rangeindex >= 0 ==> topic[0] != '$'
+//@   ensures[C06:level] err == nil && len(rem) > 0 ==> sameslice(rem, topic[len(topic)-len(rem):])
+//@   ensures[C06:noslash] err == nil ==> forall(0, len(level), func(j int) bool { return level[j] != '/' })
+//@   ensures[C06:wild-alone] err == nil && len(level) > 1 ==> forall(0, len(level), func(j int) bool { return level[j] != '#' && level[j] != '+' })
+//@   ensures[C06:dollar] len(topic) > 0 && topic[0] == '$' ==> err != nil
+//@   modifies nothing
